@@ -300,7 +300,12 @@ func (p *Program) verifyFuncOnce(key string, opts *UnitOpts, prereg map[string]s
 	}
 	fc := p.db.Funcs[key]
 	if fc == nil {
-		return nil, nil, fmt.Errorf("no contract for %s", key)
+		// no contract: an empty one (units that only carry driver-generated obligations)
+		pkg := ""
+		if fn.Pkg != nil {
+			pkg = fn.Pkg.Pkg.Path()
+		}
+		fc = &FuncContract{Key: key, Pkg: pkg, Loops: map[int][]Clause{}, Attrs: map[string]string{}}
 	}
 	if opts != nil && strings.HasPrefix(opts.NameSuffix, "/") {
 		if sub, ok := fc.Cases[opts.NameSuffix[1:]]; ok {
@@ -436,7 +441,7 @@ func (p *Program) verifyFuncOnce(key string, opts *UnitOpts, prereg map[string]s
 		opts.AtExit(ex, fr, g, s, res)
 	}
 	// frame: everything the body may write is covered by the modifies clause
-	if fc.HasMod {
+	if fc.HasMod && !fc.Trusted {
 		ex.frameObligations(fr, fc, g, s)
 	}
 	// canary: the exit must be reachable and the facts consistent there
